@@ -21,3 +21,5 @@ def run(ctx):
     base.run_correspondence(ctx, PROFILE, ctx.scale(300, 4000))
     scns = [TW.gen_c09(ctx.seed, i) for i in range(ctx.scale(500, 8000))]
     base.run_twin(ctx, "predict_vs_expectations", scns)
+    large = [TW.gen_c09_large(ctx.seed, i) for i in range(ctx.scale(8, 80))]
+    base.run_twin(ctx, "predict_vs_expectations", large, shrink=False)
